@@ -1,5 +1,5 @@
 """C03 -- minimise/maximise return a feasible optimum, or nothing exactly when infeasible (structural clauses)."""
-from ..rules import branching, optimize, process
+from ..rules import branching, model, optimize, process
 
 EXPLANATION = (
     "Static analysis of branch-and-bound by restart: in optimize and optimize_and_queue every improving iteration does solve -> reset(this solver's stacks) -> tighten(stack, top, dom_indices, dom_offsets, variable_idx, incumbent[variable_idx]); an exit edge after the tightening reads both bounds of the objective's shared domain (emptiness guard); the incumbent is recorded / queued and the last one returned; minimize<->decrease_max and maximize<->increase_min; decrease_max stores value-1-offset into (dom_indices[var], MAX), increase_min value+1-offset into (.., MIN); reset = cp_init from the problem's initial domains + full re-trigger; is_solved over all domains. Not optimality as a value. Also: the multiprocessing reducer keeps the best with the comparison that matches the direction; cp_init (what a restart re-establishes) resets top, domains and the enabled flags."
@@ -12,4 +12,5 @@ def check(ctx, prog):
     optimize.rule_reset(ctx, prog)
     optimize.rule_is_solved(ctx, prog)
     process.rule_keepbest(ctx, prog)
+    model.rule_optional_zero(ctx, prog)
     branching.check_choice_points(ctx, prog)  # scope: cp_init only (what a restart re-establishes)
